@@ -148,9 +148,10 @@ def ty_class(classes, ty):
 class Captured(object):
     def __init__(self):
         self.calls = []
+        self.headers = []
 
 
-def build_app(classes, params, in_prot, out_prot=None, name='f'):
+def build_app(classes, params, in_prot, out_prot=None, name='f', header=None):
     """an Application with one service method f(p0, p1, ...) that records its arguments.
     Returns (app, captured, in_message class)"""
     from spyne import Application, rpc, Service
@@ -158,12 +159,15 @@ def build_app(classes, params, in_prot, out_prot=None, name='f'):
     from spyne.protocol.xml import XmlDocument
     cap = Captured()
     names = ['p%d' % i for i in range(len(params))]
-    src = 'def %s(ctx%s):\n    cap.calls.append((%s))\n    return None\n' % (
+    src = 'def %s(ctx%s):\n    cap.headers.append(ctx.in_header)\n    cap.calls.append((%s))\n    return None\n' % (
         name, ''.join(', ' + n for n in names), ''.join(n + ', ' for n in names))
     env = {'cap': cap}
     exec(src, env)
     fn = rpc(*[ty_class(classes, t) for t in params], _returns=Unicode)(env[name])
-    svc = type('S', (Service,), {name: fn})
+    body = {name: fn}
+    if header is not None:
+        body['__in_header__'] = header
+    svc = type('S', (Service,), body)
     app = Application([svc], TNS, in_protocol=in_prot, out_protocol=out_prot or XmlDocument())
     descr = list(svc.public_methods.values())[0]
     return app, cap, descr.in_message
@@ -815,6 +819,7 @@ def corr_xml(check, tier):
 
 # ====================================================================== driving requests
 def drive(app, body, cap):
+    del cap.headers[:]
     """one request through ServerBase; returns ('called', args) | ('fault', code) | ('crash', name)"""
     from spyne.server import ServerBase
     from spyne import MethodContext
@@ -844,6 +849,7 @@ def drive(app, body, cap):
 
 def judge_call(check, kind, prot_name, val, param_classes, res, muts, replay):
     """apply the property to what the function was called with"""
+    stat('%s validator=%s: %s' % (prot_name, val, 'function entered' if res[0] == 'called' else 'refused'))
     if res[0] != 'called':
         return
     args = res[1]
@@ -860,6 +866,11 @@ def judge_call(check, kind, prot_name, val, param_classes, res, muts, replay):
 
 
 SOAP_ENV = 'http://schemas.xmlsoap.org/soap/envelope/'
+STATS = {}
+
+
+def stat(k):
+    STATS[k] = STATS.get(k, 0) + 1
 
 
 def oracle_xml(check, tier):
@@ -878,10 +889,12 @@ def oracle_xml(check, tier):
                               ('arr', ('prim', rng.choice(RICH_PRIMS)))]) for _ in range(rng.randint(1, 3))]
         params += [('ref', n - 1)]
         apps = {}
+        hcid = rng.randrange(n)
         for pname, pcls in (('XmlDocument', XmlDocument), ('Soap11', Soap11)):
             for val in (None, 'soft', 'lxml'):
-                apps[(pname, val)] = build_app(classes, params, pcls(validator=val), pcls())
-        app0, _, in_msg = apps[('XmlDocument', None)]
+                apps[(pname, val)] = build_app(classes, params, pcls(validator=val), pcls(),
+                                               header=classes[hcid] if pname == 'Soap11' else None)
+        app0, _, in_msg = apps[('Soap11', None)]
         d2 = msg_desc(desc, classes, in_msg)
         reg = registry_of(app0, classes + [in_msg])
         enc = XmlEnc(rng, d2, [k for k, t, _ in reg if k.startswith('{')])
@@ -892,16 +905,26 @@ def oracle_xml(check, tier):
             v = gen_value(rng, d2, ('ref', mcid), rng.randint(1, 3), False, poly=(di % 2 == 1))
             doc, muts = enc.document(('ref', mcid), v, TNS, 'f')
             body = etree.tostring(doc)
+            hv = gen_value(rng, d2, ('ref', hcid), rng.randint(1, 2), False, poly=(di % 2 == 1))
+            hc = d2['classes'][hcid]
+            hdoc, hmuts = enc.document(('ref', hcid), hv, hc['ns'], hc['name'])
             env = etree.Element('{%s}Envelope' % SOAP_ENV, nsmap={'soap': SOAP_ENV})
+            etree.SubElement(env, '{%s}Header' % SOAP_ENV).append(hdoc)
             etree.SubElement(env, '{%s}Body' % SOAP_ENV).append(copy.deepcopy(doc))
             sbody = etree.tostring(env)
             for (pname, val), (app, cap, _) in apps.items():
                 b = body if pname == 'XmlDocument' else sbody
                 res = drive(app, b, cap)
                 check.count(('oracle-xml', pname, val, b))
-                judge_call(check, 'request', pname, val, pcs, res, muts,
-                           {'kind': 'xml-request', 'protocol': pname, 'validator': val, 'universe': desc, 'params': params,
-                            'body': b.decode(), 'mutations': muts})
+                rp = {'kind': 'xml-request', 'protocol': pname, 'validator': val, 'universe': desc, 'params': params,
+                      'body': b.decode(), 'mutations': muts, 'header': hcid if pname == 'Soap11' else None}
+                judge_call(check, 'request', pname, val, pcs, res, muts, rp)
+                if pname == 'Soap11' and res[0] == 'called' and cap.headers:
+                    stat('Soap11 validator=%s: header %s' % (val, 'delivered' if cap.headers[-1] is not None else 'absent'))
+                    bad = native_ok(classes[hcid], cap.headers[-1], 'header', width=val is not None)
+                    if bad:
+                        check.fail(xml_key('header', pname, val, hmuts, bad),
+                                   'Soap11(validator=%r): ctx.in_header is %s where %s is declared (at %s)' % (val, bad[2], bad[1], bad[0]), rp)
 
 
 # ====================================================================== dict documents (JSON / YAML / MessagePack)
@@ -1441,6 +1464,7 @@ def oracle_dict(check, tier):
                         continue
                     res = drive(app, b, cap)
                     check.count(('oracle-dict', pname, wrappers, b))
+                    stat('%s validator=soft: %s' % (type(prot).__name__, 'function entered' if res[0] == 'called' else 'refused'))
                     if res[0] != 'called':
                         continue
                     replay = {'kind': 'dict-request', 'protocol': pname, 'wrappers': wrappers, 'validator': 'soft', 'universe': desc,
@@ -1531,6 +1555,7 @@ def oracle_http(check, tier):
                 except Exception as e:
                     continue
                 check.count(('oracle-http', val, qs))
+                stat('HttpRpc validator=%s: %s' % (val, 'function entered' if cap.calls else 'refused'))
                 if not cap.calls:
                     continue
                 args = cap.calls[-1]
@@ -1572,6 +1597,7 @@ def run(check):
     lib.flush_correspondences(check)
     oracle_dict(check, tier)
     oracle_http(check, tier)
+    check.extra['oracle_requests'] = dict(sorted(STATS.items()))
     return check.finish()
 
 
@@ -1614,8 +1640,12 @@ def replay(check, path):
             from spyne.protocol.xml import XmlDocument
             from spyne.protocol.soap import Soap11
             pcls = {'XmlDocument': XmlDocument, 'Soap11': Soap11}[r['protocol']]
-            app, cap, in_msg = build_app(classes, params, pcls(validator=val), pcls())
+            app, cap, in_msg = build_app(classes, params, pcls(validator=val), pcls(),
+                                         header=classes[r['header']] if r.get('header') is not None else None)
             res = drive(app, r['body'].encode(), cap)
+            if res[0] == 'called' and r.get('header') is not None and cap.headers:
+                print('header:', recv_name(cap.headers[-1]) + ':' + repr(cap.headers[-1])[:120])
+                bad = native_ok(classes[r['header']], cap.headers[-1], 'header', width=val is not None)
         elif kind == 'dict-request':
             prot = make_prot(r['protocol'], val, r['wrappers'])
             app, cap, in_msg = build_app(classes, params, prot, type(prot)())
